@@ -106,6 +106,9 @@ func (r *Runtime) arm(t *rtimer, d time.Duration) {
 		d = 0
 	}
 	t.when = r.now + int64(d)
+	if t.when < r.now { // overflow: "never" (the real runtime saturates the same way)
+		t.when = 1<<63 - 1
+	}
 	r.timerSeq++
 	t.seq = r.timerSeq
 	t.armed = true
